@@ -148,7 +148,12 @@ pub fn run(ctx: &Ctx) -> Report {
     for i in 0..narch {
         let layers = if i % 3 == 2 { L_ENC | L_COMP } else { L_ENC };
         let cfg = Cfg::make(&mut rng, layers);
-        let ops = if i % 2 == 0 { adversarial_ops(&mut rng, 1 + (i as usize / 2) % 3) } else {
+        // (production constants, second archive: ONE content block spanning nine chunks, so that a reader handed a
+        //  large buffer goes through several whole chunks in one call before and after the altered one)
+        let ops = if !CONSTS.scaled && i == 1 {
+            let n = 8 * CONSTS.chunk + 77;
+            vec![Op::Add { name: "wide-block".into(), size: n as u64, src: rng.bytes(n, 3) }, Op::Add { name: "after".into(), size: 9, src: rng.bytes(9, 3) }, Op::Finalize]
+        } else if i % 2 == 0 { adversarial_ops(&mut rng, 1 + (i as usize / 2) % 3) } else {
             let o = GenOpts { max_files: 3, max_piece: if CONSTS.scaled { CONSTS.block } else { CONSTS.chunk + 100 },
                 max_total: if CONSTS.scaled { 4 * CONSTS.block } else { 500_000 }, long_name_chance: (0, 1), flushes: false };
             gen_valid_ops(&mut rng, &o)
